@@ -1,4 +1,5 @@
 import Casket.Proofs.Parser
+import Casket.Proofs.ParserTerm
 import Casket.Proofs.Lexer
 /-
 C10 — Casketfile parsing is total, terminating and structure-preserving.
@@ -57,6 +58,40 @@ theorem C10_parse_no_panic (cfg : Cfg) (fuel : Nat) (fn : String) (input : Bytes
   have := parse_safe cfg fuel fn input
   rw [h] at this
   exact this
+
+/-! ### termination -/
+
+/-- PARTIAL — what is missing: inputs that contain the token `import` (with imports, termination rests on the
+repaired cycle check, which is modelled, tied to the code and explored by the streams, but not proved to bound
+the expansion).  For every other input — any bytes, any braces, quotes, commas, snippets definitions,
+environment references whose replacement ends — `Parse` returns: a fuel of (number of tokens + 3) is never
+used up, because every loop of parse.go advances the cursor. -/
+theorem C10_parse_terminates_no_import_partial (cfg : Cfg) (fuel : Nat) (fn : String) (input : Bytes)
+    (hp : Plain cfg (lex input)) (hf : (lex input).length + 3 ≤ fuel) :
+    parse cfg fuel fn input ≠ .timeout := by
+  intro h
+  have := parse_fin cfg fuel fn input hp hf
+  rw [h] at this
+  exact this
+
+/-- the hypothesis is decidable for texts without `{%` / `{$`, and it holds for ordinary configurations:
+`host {⏎ dir "a b" {⏎  x⏎ }⏎}` (a test of non-vacuity) -/
+example : Plain {} (lex [0x68, 0x6F, 0x73, 0x74, 0x20, 0x7B, 0x0A, 0x20, 0x64, 0x69, 0x72, 0x20, 0x22, 0x61, 0x20, 0x62, 0x22,
+    0x20, 0x7B, 0x0A, 0x20, 0x20, 0x78, 0x0A, 0x20, 0x7D, 0x0A, 0x7D]) :=
+  plain_of_noRef {} (by decide) _ (by decide)
+
+/-- Totality for import-free inputs, in the judge's terms: the model's answer is never `panic` and never
+`timeout`, i.e. it is blocks or an error. -/
+theorem C10_model_returns_partial (cfg : Cfg) (fuel : Nat) (fn : String) (input : Bytes)
+    (hp : Plain cfg (lex input)) (hf : (lex input).length + 3 ≤ fuel) :
+    (∃ bs, answerOf (parse cfg fuel fn input) = .blocks bs) ∨
+    (∃ c f l, answerOf (parse cfg fuel fn input) = .error c f l) := by
+  have h1 := C10_parse_terminates_no_import_partial cfg fuel fn input hp hf
+  cases hr : parse cfg fuel fn input with
+  | ok bs => exact Or.inl ⟨bs, rfl⟩
+  | err c f l => exact Or.inr ⟨c, f, l, rfl⟩
+  | panic m => exact absurd hr (C10_parse_no_panic cfg fuel fn input m)
+  | timeout => exact absurd hr h1
 
 /-! ### import cycles (finding F8, repaired) -/
 
